@@ -13,7 +13,8 @@ PROPERTY = "C06"
 LEVEL = "exploration"
 RULE = (
     "enum: every DAG on n<=4 (quick) / n<=5 (thorough, plus a slice of n=6) nodes whose nodes are tasks, plain data, "
-    "aliases or non-task lists of keys, each in legacy and task-spec encoding, with every subset of task nodes additionally "
+    "aliases or non-task lists of keys, each in legacy, task-spec and MIXED encoding (Task objects for calls, plain lists / "
+    "aliases / data for the rest, as da.store builds), with every subset of task nodes additionally "
     "referencing a key OUTSIDE the graph (n<=3: all subsets; larger: three masks), and with return_stats on/off; cyclic "
     "variants (every single back edge / self-loop added to the n<=3 DAGs) must raise RuntimeError. hyp: random DAG shapes "
     "to 40 nodes with random key flavours and insertion order; graphs materialised from real array / bag / delayed "
@@ -53,7 +54,7 @@ def check_order(dsk, edges, keys, return_stats, sig):
 def check(case):
     g = case["graph"]
     n = len(g["nodes"])
-    sig = dict(style=g.get("style", "legacy"), cyclic=bool(case.get("back_edges")), external=bool(g.get("external")))
+    sig = dict(style="mixed" if g.get("mixed") else g.get("style", "legacy"), cyclic=bool(case.get("back_edges")), external=bool(g.get("external")))
     b = Build(g)
     dsk = b.graph()
     order_ins = case.get("insertion")
@@ -110,7 +111,7 @@ def classes(case):
         yield "external-ref"
     if case.get("back_edges"):
         yield "cyclic"
-    yield "style-" + case["graph"].get("style", "legacy")
+    yield "style-" + ("mixed" if case["graph"].get("mixed") else case["graph"].get("style", "legacy"))
 
 
 def with_external(g, mask_nodes):
@@ -135,8 +136,13 @@ def enum_cases(tier):
             if gi % stride:
                 continue
             tasks = [i for i, s in enumerate(shape) if s["kind"] in ("task", "list")]
-            for style in ("legacy", "taskspec"):
-                g = dags.dag_spec(shape, style, ["str", "tuple", "mixed"][gi % 3])
+            for style in ("legacy", "taskspec", "mixed"):
+                g = dags.dag_spec(shape, "taskspec" if style == "mixed" else style, ["str", "tuple", "mixed"][gi % 3])
+                if style == "mixed":
+                    # Task objects + plain lists/aliases (+ plain data for every other graph)
+                    g = dags.mixed(g, ("list", "ref") if gi % 2 else ("list", "ref", "lit"))
+                    if not any(n.get("style") == "legacy" for n in g["nodes"]):
+                        continue
                 yield {"graph": g, "return_stats": bool(gi % 2)}
                 if not tasks:
                     continue
@@ -183,6 +189,8 @@ def _reaches(shape, a, b):
 def random_case(draw):
     g = draw(dags.shape_graph(min_nodes=3, max_nodes=40))
     n = len(g["nodes"])
+    if draw(st.integers(0, 2)) == 0:
+        g = dags.mixed(g, ("list", "ref") if draw(st.booleans()) else ("list", "ref", "lit"))
     case = {"graph": g, "return_stats": draw(st.booleans()), "insertion": list(draw(st.permutations(list(range(n)))))}
     if draw(st.integers(0, 3)) == 0:
         tasks = [i for i in range(n) if "call" in g["nodes"][i]["body"] or "list" in g["nodes"][i]["body"]]
